@@ -128,3 +128,318 @@ Proof.
     + apply read_u4_ok. unfold lo. lia.
     + unfold lo. lia.
 Qed.
+
+(* ------------------------------------------------------------------ JSON numbers *)
+Lemma numval_app a b x : numval (a ++ b) x = numval b (numval a x).
+Proof. unfold numval. apply fold_left_app. Qed.
+
+Definition P2 (f : nat) : N := (2 ^ N.of_nat f)%N.
+Lemma P2_0 : P2 0 = 1%N. Proof. reflexivity. Qed.
+Lemma P2_S f : P2 (S f) = (2 * P2 f)%N.
+Proof. unfold P2. rewrite Nat2N.inj_succ, N.pow_succ_r'. reflexivity. Qed.
+
+Lemma dec_fuel_S f n acc :
+  dec_fuel (S f) n acc = if (n / 10 =? 0)%N then (48 + n mod 10)%N :: acc
+                         else dec_fuel f (n / 10) ((48 + n mod 10)%N :: acc).
+Proof. reflexivity. Qed.
+
+Lemma dec_fuel_spec : forall f n acc, (n < P2 (S f))%N ->
+  exists l, dec_fuel (S f) n acc = l ++ acc /\ forallb is_digit l = true /\ l <> [] /\ numval l 0 = n.
+Proof.
+  induction f as [|f IH]; intros n acc H; rewrite dec_fuel_S.
+  - rewrite P2_S, P2_0 in H.
+    assert (E : (n / 10 =? 0)%N = true) by lia. rewrite E.
+    exists [(48 + n mod 10)%N]. repeat split; [|discriminate|].
+    + cbn [forallb]. unfold is_digit. lia.
+    + unfold numval. cbn [fold_left]. lia.
+  - destruct (n / 10 =? 0)%N eqn:E.
+    + exists [(48 + n mod 10)%N]. repeat split; [|discriminate|].
+      * cbn [forallb]. unfold is_digit. lia.
+      * unfold numval. cbn [fold_left]. lia.
+    + rewrite !P2_S in H.
+      destruct (IH (n / 10)%N ((48 + n mod 10)%N :: acc)) as (l & E1 & E2 & E3 & E4).
+      { rewrite P2_S. lia. }
+      exists (l ++ [(48 + n mod 10)%N]). repeat split.
+      * rewrite E1, <- app_assoc. reflexivity.
+      * rewrite forallb_app, E2. cbn [forallb]. unfold is_digit. lia.
+      * destruct l; discriminate.
+      * rewrite numval_app, E4. unfold numval. cbn [fold_left]. lia.
+Qed.
+
+Lemma dec_N_spec n : exists l, dec_N n = l /\ forallb is_digit l = true /\ l <> [] /\ numval l 0 = n.
+Proof.
+  unfold dec_N.
+  destruct (dec_fuel_spec (N.to_nat (N.log2 n)) n []) as (l & E1 & E2 & E3 & E4).
+  - unfold P2. rewrite Nat2N.inj_succ, N2Nat.id.
+    destruct n as [|p]; [reflexivity|]. apply N.log2_spec. reflexivity.
+  - exists l. rewrite app_nil_r in E1. auto.
+Qed.
+
+Definition no_digit_head (r : text) : Prop := match r with [] => True | c :: _ => is_digit c = false end.
+
+Lemma span_digits_app l r : forallb is_digit l = true -> no_digit_head r -> span_digits (l ++ r) = (l, r).
+Proof.
+  induction l as [|c l IH]; intros F H.
+  - cbn [app]. destruct r as [|c r]; [reflexivity|]. cbn in H |- *. rewrite H. reflexivity.
+  - cbn [forallb] in F. apply andb_true_iff in F. destruct F as [Fc Fl].
+    cbn [app span_digits]. rewrite Fc, (IH Fl H). reflexivity.
+Qed.
+
+Definition num_tail (neg : bool) (n : Z) (r : text) : option (jv * text) :=
+  let sg := fun z : Z => if neg then Z.opp z else z in
+  match r with
+  | d :: a :: r1 =>
+      if (d =? 46)%N then
+        if (a =? 48)%N then Some (JFlt (sg (n * 4)%Z), r1)
+        else if (a =? 53)%N then Some (JFlt (sg (n * 4 + 2)%Z), r1)
+        else match r1 with
+             | b :: r2 =>
+                 if (a =? 50)%N && (b =? 53)%N then Some (JFlt (sg (n * 4 + 1)%Z), r2)
+                 else if (a =? 55)%N && (b =? 53)%N then Some (JFlt (sg (n * 4 + 3)%Z), r2)
+                 else None
+             | [] => None
+             end
+      else Some (JInt (sg n), r)
+  | _ => Some (JInt (sg n), r)
+  end.
+
+Lemma read_num_gen (neg : bool) l r : forallb is_digit l = true -> l <> [] -> no_digit_head r ->
+  read_num ((if neg then [45%N] else []) ++ l ++ r) = num_tail neg (Z.of_N (numval l 0)) r.
+Proof.
+  intros F NE H. destruct neg.
+  - cbn [app]. unfold read_num. cbv beta iota. change (45 =? 45)%N with true. cbv beta iota.
+    rewrite (span_digits_app l r F H). destruct l as [|c l]; [contradiction|reflexivity].
+  - destruct l as [|c l]; [contradiction|].
+    pose proof F as F'. cbn [forallb] in F'. apply andb_true_iff in F'. destruct F' as [Fc _].
+    assert (E : (c =? 45)%N = false) by (unfold is_digit in Fc; lia).
+    cbn [app]. unfold read_num. cbv beta iota. rewrite E. cbv beta iota.
+    change (c :: l ++ r) with ((c :: l) ++ r). rewrite (span_digits_app (c :: l) r F H). reflexivity.
+Qed.
+
+Lemma read_num_neg l r : forallb is_digit l = true -> l <> [] -> no_digit_head r ->
+  read_num (45%N :: l ++ r) = num_tail true (Z.of_N (numval l 0)) r.
+Proof. intros. exact (read_num_gen true l r H H0 H1). Qed.
+Lemma read_num_pos l r : forallb is_digit l = true -> l <> [] -> no_digit_head r ->
+  read_num (l ++ r) = num_tail false (Z.of_N (numval l 0)) r.
+Proof. intros. exact (read_num_gen false l r H H0 H1). Qed.
+
+Definition ok_rest (r : text) : Prop :=
+  match r with [] => True | c :: _ => c = 44%N \/ c = 93%N \/ c = 125%N end.
+
+Lemma ok_rest_no_digit r : ok_rest r -> no_digit_head r.
+Proof. destruct r as [|c r]; [auto|]. cbn. unfold is_digit. intros [ -> | [ -> | -> ] ]; reflexivity. Qed.
+
+Lemma read_num_int z r : ok_rest r -> read_num (dec_Z z ++ r) = Some (JInt z, r).
+Proof.
+  intros H. unfold dec_Z.
+  destruct (z <? 0)%Z eqn:Z0.
+  - destruct (dec_N_spec (Z.abs_N z)) as (l & El & F & NE & V); rewrite El; clear El.
+    cbn [app]. rewrite (read_num_neg l r) by (auto using ok_rest_no_digit). rewrite V. unfold num_tail.
+    assert (Ez : (- Z.of_N (Z.abs_N z))%Z = z) by (rewrite N2Z.inj_abs_N; lia).
+    destruct r as [|c [|a r1]]; cbv beta zeta iota; rewrite ?Ez; try reflexivity.
+    cbn in H. assert (H0 : (c =? 46)%N = false) by lia. rewrite H0. reflexivity.
+  - destruct (dec_N_spec (Z.to_N z)) as (l & El & F & NE & V); rewrite El; clear El.
+    rewrite (read_num_pos l r) by (auto using ok_rest_no_digit). rewrite V. unfold num_tail.
+    assert (Ez : Z.of_N (Z.to_N z) = z) by lia.
+    destruct r as [|c [|a r1]]; cbv beta zeta iota; rewrite ?Ez; try reflexivity.
+    cbn in H. assert (H0 : (c =? 46)%N = false) by lia. rewrite H0. reflexivity.
+Qed.
+
+Lemma read_num_flt q r : read_num (flt_repr q ++ r) = Some (JFlt q, r).
+Proof.
+  unfold flt_repr.
+  destruct (dec_N_spec (Z.abs_N q / 4)) as (l & El & F & NE & V); rewrite El; clear El.
+  assert (A : Z.of_N (Z.abs_N q) = Z.abs q) by apply N2Z.inj_abs_N.
+  set (a := Z.abs_N q) in *.
+  assert (M : (a mod 4 = 0 \/ a mod 4 = 1 \/ a mod 4 = 2 \/ a mod 4 = 3)%N) by lia.
+  assert (D : Z.of_N (a / 4) = (Z.of_N a / 4)%Z) by (rewrite N2Z.inj_div; reflexivity).
+  assert (Md : Z.of_N (a mod 4) = (Z.of_N a mod 4)%Z) by (rewrite N2Z.inj_mod; reflexivity).
+  destruct (q <? 0)%Z eqn:Q; rewrite <- !app_assoc; cbn [app];
+    [rewrite read_num_neg by (auto; reflexivity)|rewrite read_num_pos by (auto; reflexivity)];
+    rewrite V; unfold num_tail;
+    destruct M as [M|[M|[M|M]]]; rewrite M; cbn [frac_repr app N.eqb Pos.eqb andb];
+    f_equal; f_equal; f_equal; lia.
+Qed.
+
+(* ------------------------------------------------------------------ JSON values *)
+Lemma dec_N_head n : exists c t, dec_N n = c :: t /\ is_digit c = true.
+Proof.
+  destruct (dec_N_spec n) as (l & El & F & NE & _). rewrite El. destruct l as [|c t]; [contradiction|].
+  cbn [forallb] in F. apply andb_true_iff in F. exists c, t. tauto.
+Qed.
+
+Definition num_head (c : N) : Prop := c = 45%N \/ is_digit c = true.
+
+Lemma dec_Z_head z : exists c t, dec_Z z = c :: t /\ num_head c.
+Proof.
+  unfold dec_Z, num_head. destruct (z <? 0)%Z; [eauto|].
+  destruct (dec_N_head (Z.to_N z)) as (c & t & E & D). rewrite E. eauto.
+Qed.
+Lemma flt_repr_head q : exists c t, flt_repr q = c :: t /\ num_head c.
+Proof.
+  unfold flt_repr, num_head. destruct (q <? 0)%Z; [cbn [app]; eauto|].
+  destruct (dec_N_head (Z.abs_N q / 4)) as (c & t & E & D). rewrite E. cbn [app]. eauto.
+Qed.
+
+Lemma parse_num f c t : num_head c -> parse (S f) (c :: t) = read_num (c :: t).
+Proof.
+  intros H. cbn [parse].
+  assert ((c =? 110)%N = false /\ (c =? 116)%N = false /\ (c =? 102)%N = false /\ (c =? 34)%N = false
+          /\ (c =? 91)%N = false /\ (c =? 123)%N = false) as (A1 & A2 & A3 & A4 & A5 & A6)
+    by (unfold num_head, is_digit in H; lia).
+  rewrite A1, A2, A3, A4, A5, A6. reflexivity.
+Qed.
+
+Lemma json_head v : exists c t, json_dumps v = c :: t /\ c <> 93%N /\ c <> 125%N.
+Proof.
+  destruct v as [| [|] | z | q | s | l | m]; cbn [json_dumps]; unfold json_str;
+    try (eexists; eexists; split; [reflexivity|split; discriminate]).
+  - destruct (dec_Z_head z) as (c & t & E & H). rewrite E. exists c, t.
+    unfold num_head, is_digit in H. split; [reflexivity|lia].
+  - destruct (flt_repr_head q) as (c & t & E & H). rewrite E. exists c, t.
+    unfold num_head, is_digit in H. split; [reflexivity|lia].
+Qed.
+
+Lemma json_len_pos v : 1 <= length (json_dumps v).
+Proof. destruct (json_head v) as (c & t & E & _). rewrite E. cbn [length]. lia. Qed.
+
+Lemma join_sep_cons (x y : text) (l : list text) : join_sep (x :: y :: l) = x ++ [44; 32]%N ++ join_sep (y :: l).
+Proof. reflexivity. Qed.
+
+Lemma join_len_in (x : text) (l : list text) : In x l -> length x <= length (join_sep l).
+Proof.
+  induction l as [|y l IH]; [intros []|].
+  destruct l as [|z l].
+  - intros [->|[]]. cbn [join_sep]. lia.
+  - rewrite join_sep_cons, !app_length. intros [->|H]; [lia|]. specialize (IH H). cbn [length]. lia.
+Qed.
+
+Lemma join_len_count {A} (g : A -> text) l : (forall x, 1 <= length (g x)) ->
+  length l <= length (join_sep (map g l)).
+Proof.
+  intros G. induction l as [|y l IH]; [cbn; lia|].
+  destruct l as [|z l].
+  - cbn [map join_sep length]. specialize (G y). lia.
+  - cbn [map] in *. rewrite join_sep_cons, !app_length. cbn [length] in *. specialize (G y). lia.
+Qed.
+
+Lemma p_items_ok (d : reader) : forall l k rest, l <> [] ->
+  Forall (fun x => forall r, ok_rest r -> d (json_dumps x ++ r) = Some (x, r)) l ->
+  length l <= k ->
+  p_items d k (join_sep (map json_dumps l) ++ 93%N :: rest) = Some (l, rest).
+Proof.
+  induction l as [|x l IH]; intros k rest NE F L; [contradiction|].
+  destruct k as [|k]; [cbn in L; lia|].
+  inversion F as [|? ? Hx Fl]; subst.
+  destruct l as [|y l].
+  - cbn [map join_sep p_items]. rewrite Hx by (cbn; auto). reflexivity.
+  - cbn [map]. rewrite join_sep_cons. rewrite <- !app_assoc. cbn [p_items].
+    rewrite Hx by (cbn; auto). cbn [app].
+    change (44 =? 93)%N with false. change (44 =? 44)%N with true. change (32 =? 32)%N with true. cbv iota.
+    change (json_dumps y :: map json_dumps l) with (map json_dumps (y :: l)).
+    rewrite (IH k rest); [reflexivity|discriminate|exact Fl|cbn [length] in *; lia].
+Qed.
+
+Definition pair_text (kv : text * jv) : text := json_str (fst kv) ++ [58; 32]%N ++ json_dumps (snd kv).
+
+Lemma p_pairs_ok (d : reader) f : forall m k rest, m <> [] ->
+  Forall (fun kv => forallb wf_char (fst kv) = true /\ length (fst kv) < f
+                    /\ forall r, ok_rest r -> d (json_dumps (snd kv) ++ r) = Some (snd kv, r)) m ->
+  length m <= k ->
+  p_pairs d f k (join_sep (map pair_text m) ++ 125%N :: rest) = Some (m, rest).
+Proof.
+  induction m as [|[key v] m IH]; intros k rest NE F L; [contradiction|].
+  destruct k as [|k]; [cbn in L; lia|].
+  inversion F as [|? ? Hx Fl]; subst. cbn [fst snd] in Hx. destruct Hx as (Wk & Lk & Hv).
+  destruct m as [|y m].
+  - cbn [map join_sep]. unfold pair_text at 1. cbn [fst snd]. unfold json_str.
+    cbn [app]. rewrite <- !app_assoc. cbn [app p_pairs]. change (34 =? 34)%N with true. cbv iota.
+    rewrite (read_str_ok key Wk f _ Lk).
+    change ((58 =? 58)%N && (32 =? 32)%N) with true. cbv iota.
+    rewrite Hv by (cbn; auto). change (125 =? 125)%N with true. reflexivity.
+  - cbn [map]. rewrite join_sep_cons. unfold pair_text at 1. cbn [fst snd]. unfold json_str.
+    cbn [app]. rewrite <- !app_assoc. cbn [app p_pairs]. change (34 =? 34)%N with true. cbv iota.
+    rewrite (read_str_ok key Wk f _ Lk).
+    change ((58 =? 58)%N && (32 =? 32)%N) with true. cbv iota.
+    rewrite Hv by (cbn; auto).
+    change (44 =? 125)%N with false. change (44 =? 44)%N with true. change (32 =? 32)%N with true. cbv iota.
+    change (pair_text y :: map pair_text m) with (map pair_text (y :: m)).
+    rewrite (IH k rest); [reflexivity|discriminate|exact Fl|cbn [length] in *; lia].
+Qed.
+
+Lemma json_str_len s : length s + 2 <= length (json_str s).
+Proof.
+  unfold json_str. cbn [length]. rewrite app_length. cbn [length].
+  assert (length s <= length (flat_map esc_char s)).
+  { induction s as [|c s IH]; [cbn; lia|]. cbn [flat_map length]. rewrite app_length.
+    pose proof (esc_char_len c). lia. }
+  lia.
+Qed.
+
+Lemma json_dumps_obj m :
+  json_dumps (JObj m) = 123%N :: join_sep (map pair_text m) ++ [125%N].
+Proof. reflexivity. Qed.
+
+Lemma parse_dumps : forall v, wf_jv v = true -> forall f rest,
+  length (json_dumps v) <= f -> ok_rest rest -> parse f (json_dumps v ++ rest) = Some (v, rest).
+Proof.
+  induction v using jv_ind2; intros W f rest L R; (destruct f as [|f]; [match type of L with length (json_dumps ?v) <= 0 => pose proof (json_len_pos v) as Q; lia end|]).
+  - reflexivity.
+  - destruct b; reflexivity.
+  - cbn [json_dumps]. destruct (dec_Z_head z) as (c & t & E & H). rewrite E. cbn [app].
+    rewrite parse_num by assumption. change (c :: t ++ rest) with ((c :: t) ++ rest). rewrite <- E.
+    apply read_num_int, R.
+  - cbn [json_dumps]. destruct (flt_repr_head z) as (c & t & E & H). rewrite E. cbn [app].
+    rewrite parse_num by assumption. change (c :: t ++ rest) with ((c :: t) ++ rest). rewrite <- E.
+    apply read_num_flt.
+  - cbn [json_dumps wf_jv] in *. pose proof (json_str_len s) as Ls. unfold json_str in *.
+    cbn [app parse]. change (34 =? 110)%N with false. change (34 =? 116)%N with false.
+    change (34 =? 102)%N with false. change (34 =? 34)%N with true. cbv iota.
+    rewrite <- app_assoc. cbn [app].
+    rewrite (read_str_ok s W f rest) by lia. reflexivity.
+  - cbn [json_dumps wf_jv] in *. cbn [app parse]. change (91 =? 110)%N with false. change (91 =? 116)%N with false.
+    change (91 =? 102)%N with false. change (91 =? 34)%N with false. change (91 =? 91)%N with true. cbv iota.
+    destruct l as [|x l].
+    + reflexivity.
+    + rewrite <- app_assoc. cbn [app].
+      destruct (json_head x) as (c & t & E & N1 & _).
+      assert (Hd : exists t', join_sep (map json_dumps (x :: l)) ++ 93%N :: rest = c :: t').
+      { cbn [map]. destruct l; cbn [map join_sep]; rewrite E; cbn [app]; eauto. }
+      destruct Hd as (t' & Hd). rewrite Hd.
+      assert (E93 : (c =? 93)%N = false) by lia. rewrite E93. rewrite <- Hd.
+      cbn [length] in L. rewrite app_length in L. cbn [length] in L.
+      rewrite p_items_ok; [reflexivity|discriminate| |].
+      * rewrite Forall_forall in *. intros y Hy r Hr. apply H; [exact Hy| | |exact Hr].
+        -- rewrite forallb_forall in W. apply W, Hy.
+        -- pose proof (join_len_in (json_dumps y) (map json_dumps (x :: l)) (in_map _ _ _ Hy)). lia.
+      * pose proof (join_len_count json_dumps (x :: l) json_len_pos). lia.
+  - rewrite json_dumps_obj in *. cbn [wf_jv] in W.
+    cbn [app parse]. change (123 =? 110)%N with false. change (123 =? 116)%N with false.
+    change (123 =? 102)%N with false. change (123 =? 34)%N with false. change (123 =? 91)%N with false.
+    change (123 =? 123)%N with true. cbv iota.
+    destruct m as [|kv m].
+    + reflexivity.
+    + rewrite <- app_assoc. cbn [app].
+      assert (Hd : exists t', join_sep (map pair_text (kv :: m)) ++ 125%N :: rest = 34%N :: t').
+      { cbn [map]. destruct m; cbn [map join_sep]; unfold pair_text at 1, json_str; cbn [app]; eauto. }
+      destruct Hd as (t' & Hd). rewrite Hd. change (34 =? 125)%N with false. cbv iota. rewrite <- Hd.
+      cbn [length] in L. rewrite app_length in L. cbn [length] in L.
+      rewrite p_pairs_ok; [reflexivity|discriminate| |].
+      * rewrite Forall_forall in *. intros y Hy.
+        rewrite forallb_forall in W. specialize (W y Hy). apply andb_true_iff in W. destruct W as [Wk Wv].
+        pose proof (join_len_in (pair_text y) (map pair_text (kv :: m)) (in_map _ _ _ Hy)) as Lp.
+        assert (Lq : length (fst y) + 2 + length (json_dumps (snd y)) <= length (pair_text y)).
+        { unfold pair_text. rewrite !app_length. pose proof (json_str_len (fst y)). cbn [length]. unfold text in *. lia. }
+        split; [exact Wk|]. split; [unfold text in *; lia|].
+        intros r Hr. apply H; [exact Hy|exact Wv|unfold text in *; lia|exact Hr].
+      * assert (G : forall x, 1 <= length (pair_text x)).
+        { intros x. unfold pair_text. rewrite !app_length. pose proof (json_str_len (fst x)). lia. }
+        pose proof (join_len_count pair_text (kv :: m) G). unfold text in *. lia.
+Qed.
+
+Theorem json_loads_dumps v : wf_jv v = true -> json_loads (json_dumps v) = Some v.
+Proof.
+  intros W. unfold json_loads.
+  pose proof (parse_dumps v W (length (json_dumps v)) [] (le_n _) Logic.I) as E.
+  rewrite app_nil_r in E. rewrite E. reflexivity.
+Qed.
